@@ -1,10 +1,166 @@
-(* C01 — theorems (statements only; proofs in Compose.v / Instances.v). *)
-From Coq Require Import List.
-From Verif.C01 Require Import Model Spec Compose.
-Import ListNotations.
+(* C01 — Felix's computed dataplane state depends only on the current datastore state.
+   Theorems only (proofs: Compose.v generic theory, Instances.v sequencer + whole graph, Passthru.v a closed
+   instance, InstC04.v / InstC07.v the index nodes).
 
-(* running a synchronous producer->consumer composition = running the consumer on everything the producer emitted *)
+   Vocabulary
+     node I O            a calc-graph node: state machine  step : state -> I -> state * list O   (Model.v)
+     pipe_seq / pipe_par / pipe_map     producer calls consumer / dispatcher fan-out / stateless filter
+     stype, net X ms     a stream type with the NET STATE a stream describes (fold of its messages)
+     hf n P Q F          node n is HISTORY-FREE on the input streams admitted by P: its outputs are admitted by Q and
+                         net (everything n emitted) = F (net inputs)          [the node_function_of_state shape]
+     DS K V              datastore update streams (upsert / delete / in-sync / flush); net = (current state, in-sync seen)
+     CB, DP              sequencer input (callbacks + flush, C02's sev) and output (C02's msg); net DP = Spec.dp_of
+     graph up late       the calculation graph:  up  (everything in front of the sequencer)  ;  EventSequencer model of C02
+
+   STATUS OF THE MAIN THEOREM (c01_history_independent_partial): PARTIAL BY DESIGN.  It is proved for an abstract
+   graph whose front part `up` is history-free (hypothesis up_hf).  Nodes for which that hypothesis is DISCHARGED by a
+   machine-checked theorem about a model tied to the Go code:
+       EventSequencer (C02: net effect + no panic)            - built into `graph`, theorem c01_sequencer_net_effect
+       IP set member index (C04: members exact, view form)    - c01_node_function_of_state_ipsetidx
+       label inheritance index (C07: index exact)             - c01_node_function_of_state_inherit
+       IP pool passthru (this directory, Passthru.v)          - c01_history_independent_pools: NO hypothesis left
+   Nodes that enter ONLY through up_hf (no Coq model here; they are exercised by the correspondence run against the
+   real graph): ValidationFilter, dispatchers and local/remote endpoint filters, ActiveRulesCalculator, RuleScanner,
+   PolicyResolver + PolicySorter (C03: the pinned code is NOT history-free, see known-findings stale-policy-sorter-entry
+   and deleted-tier-keeps-default-action), L3RouteResolver (C43 proves order independence for node and pool updates
+   only; the pinned code is NOT history-free for block updates: known finding block-update-leaves-contained-routes-stale),
+   VXLANResolver, EncapsulationResolver, DataplanePassthru (host metadata, service accounts, namespaces, wireguard),
+   ProfileDecoder, CIDR trie (C36 proves the trie = the set of stored prefixes).
+   Excluded from the generated universe and from the claim: LiveMigrationCalculator, IstioCalculator,
+   ActiveBGPPeerCalculator, ServiceIndex, ConfigBatcher (config updates restart Felix), lookup caches. *)
+From stdpp Require Import gmap.
+From Verif.Common Require Import Sync.
+From Verif.C02 Require Import Model Spec.
+From Verif.C01 Require Import Model Spec Compose Instances Passthru.
+From Verif.C01 Require InstC04 InstC07.
+
+(* --- the graph model: a synchronous producer->consumer composition runs the consumer on everything the producer emitted *)
 Theorem c01_seq_outs : forall A B C (n1 : node A B) (n2 : node B C) is,
   n_outs (pipe_seq n1 n2) is = n_outs n2 (n_outs n1 is).
 Proof. exact @seq_outs. Qed.
 Print Assumptions c01_seq_outs.
+
+(* --- generic composition: history-free nodes compose *)
+Theorem c01_compose_seq : forall (X Y Z : stype) (n1 : node (s_msg X) (s_msg Y)) (n2 : node (s_msg Y) (s_msg Z)) P Q R F1 F2,
+  Transitive (s_eqv Z) -> (forall a b, s_eqv Y a b -> s_eqv Z (F2 a) (F2 b)) ->
+  hf n1 P Q F1 -> hf n2 Q R F2 -> hf (pipe_seq n1 n2) P R (F2 ∘ F1).
+Proof. exact @hf_seq. Qed.
+Print Assumptions c01_compose_seq.
+
+Theorem c01_compose_par : forall (X Y1 Y2 : stype) (n1 : node (s_msg X) (s_msg Y1)) (n2 : node (s_msg X) (s_msg Y2)) P Q1 Q2 F1 F2,
+  hf n1 P Q1 F1 -> hf n2 P Q2 F2 ->
+  hf (Y := ssum Y1 Y2) (pipe_par n1 n2) P (fun os => Q1 (lefts os) /\ Q2 (rights os)) (fun s => (F1 s, F2 s)).
+Proof. exact @hf_par. Qed.
+Print Assumptions c01_compose_par.
+
+Theorem c01_compose_map : forall (X Y : stype) (f : s_msg X -> list (s_msg Y)) (P : _ -> Prop) (Q : _ -> Prop) G,
+  (forall is, P is -> Q (is ≫= f) /\ s_eqv Y (net Y (is ≫= f)) (G (net X is))) -> hf (pipe_map f) P Q G.
+Proof. exact @hf_map. Qed.
+Print Assumptions c01_compose_map.
+
+(* the shape proved per node in C02/C04/C07/C36: abs (state after any history) = f (current inputs), and what was
+   emitted is a function of abs  ==>  history-free *)
+Theorem c01_node_function_of_state : forall (X Y : stype) (n : node (s_msg X) (s_msg Y)) P Q A (abs : n_state n -> A) f g,
+  node_function_of_state n P Q abs f g -> hf n P Q (g ∘ f).
+Proof. exact @fos_hf. Qed.
+Print Assumptions c01_node_function_of_state.
+
+(* --- the consequence for ANY history-free pipeline: no hysteresis *)
+Theorem c01_no_hysteresis : forall (X Y : stype) (n : node (s_msg X) (s_msg Y)) P Q F,
+  Symmetric (s_eqv Y) -> Transitive (s_eqv Y) -> (forall a b, s_eqv X a b -> s_eqv Y (F a) (F b)) ->
+  hf n P Q F ->
+  forall h1 h2, P h1 -> P h2 -> s_eqv X (net X h1) (net X h2) ->
+  s_eqv Y (net Y (n_outs n h1)) (net Y (n_outs n h2)).
+Proof. exact @hf_history_independent. Qed.
+Print Assumptions c01_no_hysteresis.
+
+(* --- a fresh Felix fed an enumeration of D (any order), then in-sync and flush, has net input state (D, in-sync) *)
+Theorem c01_fresh_is_state : forall (K : Type) `{Countable K} (V : Type) (e : list (K * V)),
+  NoDup e.*1 -> net (DS K V) (fresh e) = (list_to_map e, true) /\ settled (fresh e).
+Proof. intros. split; [by apply net_fresh|apply fresh_settled]. Qed.
+Print Assumptions c01_fresh_is_state.
+
+(* --- the EventSequencer node (C02's model): inside the upstream contract, at every flush, what it has emitted
+       describes exactly the net state of what it was told *)
+Theorem c01_sequencer_net_effect : forall late,
+  hf (X := CB) (Y := DP) (seq_node late) (seq_admits late) (fun _ => True) id.
+Proof. exact seq_node_hf. Qed.
+Print Assumptions c01_sequencer_net_effect.
+
+(* --- the whole graph: flushed dataplane = function of the current datastore state *)
+Theorem c01_graph_function_of_state : forall (K : Type) `{Countable K} (V : Type) (up : node (dmsg K V) sev) late
+    (admitted : list (dmsg K V) -> Prop) (Fup : gmap K V * bool -> world),
+  hf (X := DS K V) (Y := CB) up admitted (seq_admits late) Fup ->
+  forall h, admitted h -> dp_of (n_outs (graph up late) h) = Fup (net (DS K V) h).
+Proof. intros K ? ? V. exact (@graph_function_of_state K _ _ V). Qed.
+Print Assumptions c01_graph_function_of_state.
+
+(* MAIN THEOREM, PARTIAL: for every history h that ends in state D with in-sync signalled and a final flush, the
+   dataplane described by everything the graph emitted equals the dataplane described by what a freshly started
+   graph emits when fed only D (any enumeration order e).
+   Missing to make it unconditional: the node lemma  [up_hf]  "the calculation graph in front of the sequencer is
+   history-free and respects the sequencer's contract" for the real `up`, i.e. (by c01_compose_seq/par/map) one
+   [hf] lemma each for ActiveRulesCalculator, RuleScanner, PolicyResolver+PolicySorter, L3RouteResolver,
+   VXLANResolver, EncapsulationResolver, DataplanePassthru and ProfileDecoder; three of them are FALSE of the pinned
+   code (known findings), true after fixes/C03-*.patch and fixes/C01-*.patch as far as the correspondence run shows. *)
+Theorem c01_history_independent_partial : forall (K : Type) `{Countable K} (V : Type) (up : node (dmsg K V) sev) late
+    (admitted : list (dmsg K V) -> Prop) (Fup : gmap K V * bool -> world),
+  hf (X := DS K V) (Y := CB) up admitted (seq_admits late) Fup ->
+  forall h D e,
+    admitted h -> settled h -> (net (DS K V) h).1 = D ->
+    NoDup e.*1 -> list_to_map e = D -> admitted (fresh e) ->
+    dp_of (n_outs (graph up late) h) = dp_of (n_outs (graph up late) (fresh e)).
+Proof. intros K ? ? V. exact (@graph_history_independent K _ _ V). Qed.
+Print Assumptions c01_history_independent_partial.
+
+(* the same with NO hypothesis about the graph, for the IP pool slice (passthru node -> sequencer): every history *)
+Theorem c01_history_independent_pools : forall h D e,
+  ends_flushed h -> settled h -> (net (DS N N) h).1 = D -> NoDup e.*1 -> list_to_map e = D ->
+  dp_of (n_outs (graph pool_passthru true) h) = dp_of (n_outs (graph pool_passthru true) (fresh e)).
+Proof. exact pool_graph_history_independent. Qed.
+Print Assumptions c01_history_independent_pools.
+
+(* hypotheses satisfiable, non-trivially: overwrite, delete, spurious delete, revert, three flushes, in-sync in the
+   middle; the two message streams differ, the dataplanes they describe are equal *)
+Example c01_pools_example :
+  let h := [DOp (Upsert 1 10); DOp (Upsert 2 20); DFlush; DInSync; DOp (Upsert 1 11); DOp (Delete 2);
+            DOp (Delete 7); DFlush; DOp (Upsert 1 10); DOp (Upsert 3 30); DFlush]%N in
+  same_dp (n_outs (graph pool_passthru true) h) (n_outs (graph pool_passthru true) (fresh [(3, 30); (1, 10)]%N)) = true
+  /\ bool_decide (n_outs (graph pool_passthru true) h = n_outs (graph pool_passthru true) (fresh [(3, 30); (1, 10)]%N)) = false.
+Proof. exact pool_example. Qed.
+
+(* --- node lemmas imported from the properties that own the node models *)
+Module IPSetIndex.
+  Import Coq.Lists.List Verif.C04.Model Verif.C04.Spec Verif.C04.Main Verif.C04.View.
+  (* labelindex.SelectorAndNamedPortIndex: two histories with the same datastore view (last value written per
+     endpoint / network set / profile / IP set) leave every IP set with the same accumulated members, whatever the
+     iteration orders and prunings were. *)
+  Theorem c01_node_function_of_state_ipsetidx :
+    forall sel_of shuffle1 prune_ep1 prune_set1 shuffle2 prune_ep2 prune_set2 ops1 ops2 st1 evss1 st2 evss2,
+    oracles_ok shuffle1 prune_ep1 prune_set1 -> oracles_ok shuffle2 prune_ep2 prune_set2 ->
+    Forall op_wf ops1 -> Forall op_wf ops2 ->
+    Forall (op_interned sel_of) ops1 -> Forall (op_interned sel_of) ops2 ->
+    run false shuffle1 prune_ep1 prune_set1 empty_state ops1 = (st1, evss1) ->
+    run false shuffle2 prune_ep2 prune_set2 empty_state ops2 = (st2, evss2) ->
+    view_of ops1 = view_of ops2 ->
+    exists F1 F2, replay_f (fun _ => nil) ops1 evss1 = Some F1 /\ replay_f (fun _ => nil) ops2 evss2 = Some F2 /\
+      forall sid vs, alookup sid (v_sets (view_of ops1)) = Some vs -> forall m, In m (F1 sid) <-> In m (F2 sid).
+  Proof. exact InstC04.ipset_index_history_free. Qed.
+  Print Assumptions c01_node_function_of_state_ipsetidx.
+End IPSetIndex.
+
+Module InheritIndex.
+  Import Coq.Lists.List Coq.Sorting.Permutation Verif.Common.Labels Verif.C07.Model Verif.C07.Spec.
+  (* labelindex.InheritIndex: two histories describing the same labels / parents / selectors leave the same match
+     maps, whatever the map iteration orders were. *)
+  Theorem c01_node_function_of_state_inherit :
+    forall (ord1 ord2 : nat -> list N -> list N) (sel_eqb : ast -> ast -> bool),
+    (forall t l, Permutation (ord1 t l) l) -> (forall t l, Permutation (ord2 t l) l) ->
+    (forall a b, sel_eqb a b = true -> forall L, eval a L = eval b L) ->
+    forall ops1 ops2, sp_run ops1 = sp_run ops2 ->
+    forall s i,
+      rel_mem s i (by_sel (run ord1 sel_eqb ops1)) = rel_mem s i (by_sel (run ord2 sel_eqb ops2)) /\
+      rel_mem i s (by_item (run ord1 sel_eqb ops1)) = rel_mem i s (by_item (run ord2 sel_eqb ops2)).
+  Proof. exact InstC07.label_index_history_free. Qed.
+  Print Assumptions c01_node_function_of_state_inherit.
+End InheritIndex.
